@@ -7,6 +7,7 @@ import HappyProofs.C17.MLMGossip
 import HappyProofs.C17.MLMRun
 import HappyProofs.C17.MLJudge
 import HappyProofs.C17.MLMMain
+import HappyProofs.C17.MLTOrd
 /-!
 # C17 — property theorems
 
@@ -580,5 +581,40 @@ theorem mlm_judge_convergence_silent (n nk : Nat) (jn : MLM.Join) (acts : List A
       have hc := converged_of_agree (MLM.run (MLM.init n nk jn) acts).store n nk
         (fun i j k hi hj => MLM.run_gossip_complete_converges n nk jn acts hq (hlog hg) i j k hi hj)
       rw [hfin, hc]; simp
+
+/-! ## leaders with different peer sets (star / line topologies, `MLT`)
+
+Vector-clock snapshots then carry different id sets; dominance reads a missing component as 0 over the
+union of both sets, and is a strict partial order for any supports. -/
+
+/-- `_vc_dominates` is asymmetric: two clocks never dominate each other -/
+theorem ml_dominates_asymm (n : Nat) (a b : List Nat) (h : ML.dominates n a b = true) : ML.dominates n b a = false :=
+  MLT.dominates_asymm n a b h
+
+/-- … and transitive -/
+theorem ml_dominates_trans (n : Nat) (a b c : List Nat) (h1 : ML.dominates n a b = true)
+    (h2 : ML.dominates n b c = true) : ML.dominates n a c = true :=
+  MLT.dominates_trans n a b c h1 h2
+
+/-- clocks with disjoint non-zero components (two spokes of a star that have not heard of each other)
+    are concurrent, and then — on any topology — the resolver decides: the last-writer-wins comparison,
+    or the join -/
+theorem mlt_disjoint_clocks_go_to_resolver (s : MLT.St) (e inc : ML.Version)
+    (ha : ∃ c, c < s.n ∧ 0 < ML.vcGet inc.vc c ∧ ML.vcGet e.vc c = 0)
+    (hb : ∃ c, c < s.n ∧ 0 < ML.vcGet e.vc c ∧ ML.vcGet inc.vc c = 0) :
+    (s.lww = true → MLT.takesR s (some e) inc = ML.lwwLt e inc) ∧
+    (s.lww = false → MLT.takesR s (some e) inc = true ∧ MLT.pickR s (some e) inc = MLM.joinVer s.n s.join e inc) := by
+  obtain ⟨h1, h2⟩ := MLT.disjoint_concurrent s.n inc.vc e.vc ha hb
+  exact MLT.concurrent_decided_by_resolver s e inc h1 h2
+
+/-- non-vacuity: star of three, the spokes 1 and 2 write key 0 concurrently (clocks `[0,1,0]` and
+    `[0,0,1]`); the hub keeps the later one (8, t = 12) and refuses the earlier one that arrives after it;
+    spoke 1's anti-entropy request is answered with it, and everybody ends on 8 (a recorded run) -/
+example :
+    let s := MLT.run (MLT.init 3 1 .union true (MLT.star 3))
+      [.tick 10, .cw 0 1 0 7, .rs 0, .rs 0, .tick 12, .cw 1 2 0 8, .rs 1, .rs 1, .dl 1, .rs 2, .dl 0,
+       .ae 1 0, .rs 4, .dl 2, .rs 5, .dl 3, .rs 6, .ae 2 0, .rs 7, .dl 4, .ae 1 0, .rs 9, .dl 5]
+    s.err = none ∧ MLT.quiescentB s = true ∧ s.store 0 0 = some 8 ∧ s.store 1 0 = some 8 ∧ s.store 2 0 = some 8 := by
+  decide
 
 end HappyModel.C17
